@@ -224,7 +224,8 @@ func checkC09(c *C09Case) Result {
 		}
 		return false
 	}
-	if d := diffFired(gf, wf, isCount); d != "" {
+	asSet := func(id int) bool { r := rules[id]; return r != nil && (r.Multi || chainHasMulti(r)) }
+	if d := diffFiredSets(gf, wf, isCount, asSet); d != "" {
 		res.Fail = failf("%s%s", d, ctx)
 		return res
 	}
